@@ -131,3 +131,38 @@ def position_of(ex, last):
 def _mk(items):
     from sx.seq import mk_bytes
     return mk_bytes(items)
+
+
+# ------------------------------------------------------------------ descriptor wallets: position_of is the inverse of script_pub_key, whatever the chains are labelled
+from btclib.descriptors.descriptors import RawDescriptor
+from btclib.wallet.descriptor_wallet import DescriptorWallet
+
+
+@ob("C14", "descriptor_wallet_position_of_inverts_script_pub_key", quick=[dict(labels=l) for l in ([0, 1], [3, 7], [1, 2], [5], [2, 0, 9])],
+    bound="a DescriptorWallet over raw() chains whose scripts hold symbolic bytes, chains labelled 0..n-1 and with caller-chosen labels (3,7), (1,2), (5), (2,0,9): for every chain "
+          "position_of(script_pub_key(label, 0)) is (label, 0) unless an earlier chain has the same script, and a probe with symbolic bytes is found exactly at a chain whose script it equals",
+    stubs=["script validation of the probe (_validated_script_from) is the identity on bytes"],
+    functions=["btclib.wallet.descriptor_wallet.DescriptorWallet.position_of", "btclib.descriptors.descriptors.Descriptor.index_of"], min_ok=1, timeout=300)
+def wallet_position(ex, labels):
+    import btclib.descriptors.descriptors as dmod
+    ex.stub(dmod._validated_script_from, lambda s: s.script if hasattr(s, "script") else s)
+    scripts = {lab: b"\x51" + ex.bytes(f"s{lab}_", 1) + b"\x87" for lab in labels}
+    w = DescriptorWallet({lab: RawDescriptor(scripts[lab]) for lab in labels})
+    claims = {}
+    ordered = sorted(labels)
+    for lab in labels:
+        r = w.position_of(w.script_pub_key(lab, 0).script)
+        earlier = [x for x in ordered if x < lab]
+        shadowed = sor(*[scripts[x] == scripts[lab] for x in earlier]) if earlier else False
+        if r is None:
+            claims[f"own_script_of_{lab}_found"] = False
+        else:
+            claims[f"position_of_inverts_at_{lab}"] = sor(sand(r[0] == lab, r[1] == 0), sand(shadowed, scripts[r[0]] == scripts[lab] if r[0] in scripts else False))
+    probe = b"\x51" + ex.bytes("probe", 1) + b"\x87"
+    r = w.position_of(probe)
+    if r is None:
+        claims["foreign_only_when_no_chain_has_it"] = snot(sor(*[scripts[x] == probe for x in labels]))
+    else:
+        claims["probe_found_where_it_is"] = sand(r[0] in scripts, r[1] == 0, scripts[r[0]] == probe if r[0] in scripts else False)
+    return claims
+
